@@ -493,17 +493,23 @@ def run_replay(g, universe, keys, scratch, mode, hashseeds, nshards, queries=Tru
     fd, jobfile = tempfile.mkstemp(prefix="xdv-job-", suffix=".pickle")
     with os.fdopen(fd, "wb") as fh:
         pickle.dump(job, fh)
-    procs = []
     try:
-        for hs in hashseeds:
-            for sh in range(nshards):
-                env = dict(os.environ, PYTHONHASHSEED=str(hs), PYTHONPATH=os.path.dirname(os.path.dirname(os.path.abspath(__file__))))
-                p = subprocess.Popen([PY, "-m", "harness.mgr_replay", "worker", jobfile, str(sh), str(nshards)],
-                                     env=env, stdout=subprocess.PIPE, stderr=subprocess.PIPE, text=True,
-                                     cwd=os.path.dirname(os.path.dirname(os.path.abspath(__file__))))
-                procs.append((hs, sh, p))
+        # every worker loads the whole graph (measured: resident size about 11 x the pickle): launch them in waves that fit in memory
+        todo = [(hs, sh) for hs in hashseeds for sh in range(nshards)]
+        conc = max(2, min(len(todo), int(30e9 / max(1.0, 11.5 * os.path.getsize(jobfile)))))
+
+        def launched():
+            for i in range(0, len(todo), conc):
+                wave = []
+                for hs, sh in todo[i:i + conc]:
+                    env = dict(os.environ, PYTHONHASHSEED=str(hs), PYTHONPATH=os.path.dirname(os.path.dirname(os.path.abspath(__file__))))
+                    p = subprocess.Popen([PY, "-m", "harness.mgr_replay", "worker", jobfile, str(sh), str(nshards)],
+                                         env=env, stdout=subprocess.PIPE, stderr=subprocess.PIPE, text=True,
+                                         cwd=os.path.dirname(os.path.dirname(os.path.abspath(__file__))))
+                    wave.append((hs, sh, p))
+                yield from wave
         fails, stats, samples = [], collections.Counter(), []
-        for hs, sh, p in procs:
+        for hs, sh, p in launched():
             out, err = p.communicate(timeout=timeout)
             if p.returncode != 0:
                 from .common import Machinery
